@@ -21,7 +21,7 @@ SPEC = dict(
         "transition; non-trivial = distinct transitions that are a torchjd call on a state where at least one requested .grad "
         "already exists (accumulation rather than creation)"
     ),
-    bound=dict(quick="11 programs x 2 initial states (all None / arbitrary content) x all histories of <= 4 events", thorough="<= 6 events"),
+    bound=dict(quick="13 programs x 2 initial states (all None / arbitrary content) x all histories of <= 4 events", thorough="<= 6 events"),
     assumptions=[
         "graphs without retain_grad() tensors; deterministic aggregators (Constant, Mean, UPGrad)",
         "the graph is retained (retain_graph=True) so that calls can be repeated; freed-graph behaviour is C13",
@@ -30,7 +30,7 @@ SPEC = dict(
     ],
 )
 
-PROGRAMS = ("matrix", "gen-inputs", "shared-subexpr", "sum-heads", "equal-sized", "unrequested", "unreachable", "nograd-leaf", "mtl", "mtl-shared-taskparam", "mtl-unreachable")
+PROGRAMS = ("empty-param", "mtl-noshared", "matrix", "gen-inputs", "shared-subexpr", "sum-heads", "equal-sized", "unrequested", "unreachable", "nograd-leaf", "mtl", "mtl-shared-taskparam", "mtl-unreachable")
 DETERMINISM_SLICE = 4
 
 
@@ -63,7 +63,23 @@ def _build(prog, aggname):
         inner = Constant(torch.tensor([1.0, -2.0, 3.0, 5.0][:m], dtype=torch.float64)) if aggname == "const" else UPGrad()
         return RecordingAggregator(inner)
 
-    if prog == "matrix":  # a 2-d parameter: with init "content" its pre-existing .grad is dense but NOT contiguous (column-major)
+    if prog == "empty-param":  # a requested parameter with zero elements: its .grad is created (empty) like any other
+        e = torch.zeros(0, dtype=torch.float64, requires_grad=True)
+        e2 = torch.zeros((2, 0), dtype=torch.float64, requires_grad=True)
+        outs = [(a * c).sum() + e.sum(), a.sum() * c + e2.sum()]
+        req, inter = [a, e, e2, c], outs
+        call = lambda k, agg: backward(outs, agg, inputs=req, retain_graph=True, parallel_chunk_size=k)  # noqa: E731
+        m = 2
+    elif prog == "mtl-noshared":  # explicit empty shared_params: the heads still accumulate their own gradients
+        f = a * c
+        p1, p2 = T([0.3, 0.9]), T([1.1, -0.7])
+        losses = [(f * p1).sum(), (f * p2).sum() + (p1 * p2).sum()]
+        req, inter = [p1, p2], [f] + losses
+        other = [a, b, c]
+        call = lambda k, agg: mtl_backward(losses, [f], agg, tasks_params=[[p1], [p1, p2]], shared_params=[], retain_graph=True,  # noqa: E731
+                                           parallel_chunk_size=k)
+        m = 2
+    elif prog == "matrix":  # a 2-d parameter: with init "content" its pre-existing .grad is dense but NOT contiguous (column-major)
         W = T([[0.5, -1.0, 2.0], [1.5, 0.25, -0.75]])
         outs = [(W.t() @ a).sum() * c, (W * W).sum()]
         req, inter = [W, a, c], outs
@@ -149,9 +165,20 @@ def _overlap(r1, r2):
 def run_case(case):
     import torch
 
+    from mc.seams import SetOrderSeam
+
     G = _build(case["prog"], case["agg"])
     req, other, inter = G["req"], G["other"], G["inter"]
     params = req + other
+    # every set(...) built inside torchjd.autojac iterates in a fixed order: last-bit reproducibility of non-linear aggregators
+    _rank = {id(p): i for i, p in enumerate(params + inter)}
+    _raw_call = G["call"]
+
+    def _pinned(k, agg):
+        with SetOrderSeam(lambda x: _rank.get(id(x), 10 ** 6)):
+            return _raw_call(k, agg)
+
+    G["call"] = _pinned
     values0 = [p.detach().numpy().tobytes() for p in params] + [t.detach().numpy().tobytes() for t in inter]
     # ledger increment of each call type, measured once from the all-None state (bit-exact reference for every later state)
     delta = {}
@@ -168,7 +195,7 @@ def run_case(case):
             return dict(viol=[dict(sig="grad-not-created", msg=f"{case['prog']} first call k={k}")], execs=1, outcomes=["exc"], nontrivial=0)
         delta[k] = [p.grad.detach().numpy().copy() for p in req]
     for x, y in zip(delta[None], delta[1]):
-        if not (float(np.abs(x - y).max()) <= 1e-12 * max(1.0, float(np.abs(x).max()))):
+        if x.size and not (float(np.abs(x - y).max()) <= 1e-12 * max(1.0, float(np.abs(x).max()))):
             pre_viol.append(dict(sig="update-depends-on-chunk-size", msg=f"{case['prog']}: {x.tolist()} vs {y.tolist()}"))
     for p in params:
         p.grad = None
@@ -240,7 +267,13 @@ def run_case(case):
             for j, p in enumerate(req):
                 exp = delta[arg][j] if before[j] is None else before[j].numpy() + delta[arg][j]
                 got = p.grad.detach().numpy()
-                if got.shape != exp.shape or got.tobytes() != np.ascontiguousarray(exp).tobytes():
+                # bit-exact for a single in-place add; a task parameter listed by several tasks receives several adds in sequence,
+                # (previous + g1) + g2, which may differ from previous + (g1 + g2) in the last bit: 4 ulp are allowed there
+                exact = got.shape == exp.shape and got.tobytes() == np.ascontiguousarray(exp).tobytes()
+                if not exact and case["prog"].startswith("mtl") and got.shape == exp.shape and got.size:
+                    mag = np.abs(exp) + np.abs(delta[arg][j]) + (0.0 if before[j] is None else np.abs(before[j].numpy()))
+                    exact = bool(np.all(np.abs(got - exp) <= 4 * np.finfo(np.float64).eps * mag))
+                if not exact:
                     viol.append(dict(sig="ledger-mismatch", cls=f"ledger:{case['prog']}:{'create' if before[j] is None else 'accumulate'}",
                                      msg=f"{case['prog']} agg={case['agg']} history={hist}: req[{j}] got {got.tolist()} expected previous+update "
                                          f"{np.asarray(exp).tolist()} (previous {None if before[j] is None else before[j].tolist()})"))
